@@ -163,5 +163,20 @@ pub fn opt_string_as_deref_or<'a>(o: &'a Option<String>, default: &'a str) -> (r
 {
     {EXPR}
 }"""),
+        # ---- Txn::add_rate / rate / to_posting_amount: the recorded rate is keyed by the commodity it prices and printed as the cost of a posting in THAT commodity
+        U("callsite:Txn::add_rate.recorded_entry", "cli/src/import/single_entry.rs", [r"impl Txn\b", r"pub fn add_rate\b"], fn="rate_entry", no_canary=True,
+          slice=r"match self\.rates\.insert\(\s*([^;]*?\}),\s*\) \{", slice_count=1, slice_raw=True,
+          rewrites=[("R24-std-model", "key.target.clone()", "string_clone(&key.target)", 1), ("R24-std-model", "key.source.clone()", "string_clone(&key.source)", 1)],
+          slice_template="""fn rate_entry(key: &CommodityPair, rate: Decimal) -> (r: (String, OwnedAmount))
+    ensures
+        // C16: `1 target = rate source` is recorded under the TARGET commodity - the commodity the rate prices
+        r.0@ == key.target@, r.1.value == rate, r.1.commodity@ == key.source@,   // @Txn.add_rate.rate_is_recorded_under_the_commodity_it_prices
+{
+    ({EXPR})
+}"""),
+        U("anchor:Txn::rate looks the posting's commodity up", "cli/src/import/single_entry.rs", [r"impl Txn\b", r"fn rate\b"], no_canary=True,
+          slice=r"(self\.rates\s*\.get\(target\)\s*\.map\(\|x\| syntax::Exchange::Rate\(as_syntax_amount\(x\)\.into\(\)\)\))", slice_count=1, slice_template="/* anchor: {EXPR} */\n"),
+        U("anchor:a posting's cost is the rate recorded for its own commodity", "cli/src/import/single_entry.rs", [r"impl Txn\b", r"fn to_posting_amount<'a>"], no_canary=True,
+          slice=r"(cost: self\.rate\(amount\.commodity\),)", slice_count=1, slice_template="/* anchor: {EXPR} */\n"),
     ],
 }
